@@ -196,7 +196,7 @@ func outcomeOf(ev gate.Event) string {
 	return fmt.Sprint(ev["res"])
 }
 
-const stepWatch = 5 * time.Second
+const stepWatch = 60 * time.Second
 
 func runScn(s *Scn, u *univ.Universe, lg *gate.Log, idx int) error {
 	sched := gate.NewScheduler()
